@@ -611,11 +611,11 @@ func (dsc *dataStoreCommand) bitfieldWrite(keyName string, ops []*bitfieldOp) (o
 			output.data = wrongTypeError
 			return
 		}
-		if len(strBytes) < length {
-			expanded := make([]byte, length)
-			copy(expanded, strBytes)
-			strBytes = expanded
-		}
+		// work on a copy (long enough): the stored bytes are never changed in
+		// place, commands that examine a value do so after releasing the lock
+		expanded := make([]byte, max(length, len(strBytes)))
+		copy(expanded, strBytes)
+		strBytes = expanded
 		expiration = sk.expiresAt
 	} else {
 		// make a brand new byte array
